@@ -178,16 +178,31 @@ machine-checked deadlock of a cycle through a `run: once` task. -/
 along every reference -/
 def Acyclic (P : Program) : Prop := ∃ rank : Nat → Nat, RankOk P rank
 
-/-- **C07 (no deadlock).** For every acyclic program, at least one slot (or no limit), and
-dedup keys that identify the task (`KeysByTask`: in the code the key is a hash of the task and
-its variables; the model accepts any key, so the assumption is needed), every reachable
-configuration in which some activation has not returned accepts a next label: the executor
-never deadlocks on its concurrency slots, on deduplicated tasks, on dependencies or on
-nested calls, under any interleaving.  (An activation that cannot move waits for a slot —
-then a slot is free or a holder can move — or for an activation that is strictly smaller in
-`2 * rank task + [is a dedup waiter]`.) -/
+/-- no reference cycle goes through a deduplicated (`run: once` / `when_changed`) task: some
+rank never increases along a reference and decreases along every reference from or to such a
+task.  Acyclic programs and programs with only `run: always` tasks (cyclic or not) qualify. -/
+def NoDedupCycle (P : Program) : Prop := ∃ rank : Nat → Nat, SemiRankOk P rank
+
+theorem noDedupCycle_of_acyclic (P : Program) (h : Acyclic P) : NoDedupCycle P := by
+  obtain ⟨rank, hr⟩ := h
+  exact ⟨rank, semiRank_of_rank P rank hr⟩
+
+theorem noDedupCycle_of_always (P : Program) (h : ∀ (t : Nat) (d : TaskDef), P[t]? = some d → d.run = .always) :
+    NoDedupCycle P := ⟨fun _ => 0, semiRank_of_always P h⟩
+
+/-- **C07 (no deadlock).** For every program without a reference cycle through a
+deduplicated task — in particular every acyclic program, and every program of `run: always`
+tasks however cyclic — with at least one slot (or no limit) and dedup keys that identify the
+task (`KeysByTask`: in the code the key is a hash of the task and its variables; the model
+accepts any key, so the assumption is needed), every reachable configuration in which some
+activation has not returned accepts a next label: the executor never deadlocks on its
+concurrency slots, on deduplicated tasks, on dependencies or on nested calls, under any
+interleaving.  (An activation that cannot move waits for a slot — then a slot is free or a
+holder can move — or for an activation that is strictly smaller in the lexicographic
+measure `(2 * rank task + [is a dedup waiter], creation order reversed)`.)
+`C07_once_cycle_deadlock` shows the hypothesis on cycles cannot be dropped. -/
 theorem C07_no_deadlock (P : Program) (F : Flags) (n : Nat) (tr : List Label) (c : Config)
-    (hac : Acyclic P) (hcap : F.cap ≠ some 0) (hk : KeysByTask tr) (h : replay P F (init n) tr = some c)
+    (hac : NoDedupCycle P) (hcap : F.cap ≠ some 0) (hk : KeysByTask tr) (h : replay P F (init n) tr = some c)
     (hlive : ∃ a x, c.act? a = some x ∧ x.phase ≠ .done) : ∃ l, (step P F c l).isSome = true := by
   obtain ⟨rank, hr⟩ := hac
   obtain ⟨a, x, hx, hnd⟩ := hlive
@@ -199,7 +214,7 @@ final: every activation has returned, every slot has been given back, and every 
 to `Run` has been executed — unless `Run` is sequential and an earlier call failed, which
 is when `Run` returns that error at once. -/
 theorem C07_completes (P : Program) (F : Flags) (n : Nat) (tr : List Label) (c : Config)
-    (hac : Acyclic P) (hcap : F.cap ≠ some 0) (hk : KeysByTask tr) (h : replay P F (init n) tr = some c)
+    (hac : NoDedupCycle P) (hcap : F.cap ≠ some 0) (hk : KeysByTask tr) (h : replay P F (init n) tr = some c)
     (hq : ∀ l, step P F c l = none) :
     (∀ a x, c.act? a = some x → x.phase = .done) ∧ c.tokens = 0 ∧
     (∀ k, k < n → (c.tops.lookup k).isSome = true ∨
@@ -371,8 +386,8 @@ theorem keysByTask_of_const (tr : List Label) (t0 : Nat)
 example : ((replay fan one (init 1) fanRun).map (fun c => (c.tokens, holders c (actIds fanRun), shells c (actIds fanRun))))
     = some (1, 1, 1) := by decide
 -- the hypotheses of `C07_no_deadlock` / `C07_completes` are met by this run
-example : Acyclic fan ∧ one.cap ≠ some 0 ∧ KeysByTask fanRun :=
-  ⟨fan_acyclic, by decide, keysByTask_of_const fanRun 0 (by decide)⟩
+example : NoDedupCycle fan ∧ one.cap ≠ some 0 ∧ KeysByTask fanRun :=
+  ⟨noDedupCycle_of_acyclic fan fan_acyclic, by decide, keysByTask_of_const fanRun 0 (by decide)⟩
 -- the second dependency cannot take a slot while the first one runs its command …
 example : (replay fan one (init 1) (fanRun ++ [⟨3, .acquire⟩])).isNone = true := by decide
 -- … the raw monitor rejects such a log, and accepts the real one
@@ -405,8 +420,8 @@ theorem shared_acyclic : Acyclic shared := by
 
 -- a complete run with a deduplicated task: accepted, meets the hypotheses of `C07_no_deadlock` /
 -- `C07_completes`, ends in a configuration that accepts no label (`deadlocked_sound`), all slots free
-example : Acyclic shared ∧ two.cap ≠ some 0 ∧ KeysByTask sharedRun :=
-  ⟨shared_acyclic, by decide, keysByTask_of_const sharedRun 1 (by decide)⟩
+example : NoDedupCycle shared ∧ two.cap ≠ some 0 ∧ KeysByTask sharedRun :=
+  ⟨noDedupCycle_of_acyclic shared shared_acyclic, by decide, keysByTask_of_const sharedRun 1 (by decide)⟩
 example : ((replay shared two (init 1) sharedRun).map (fun c => (deadlocked c, c.tokens, boundOk 2 sharedRun 0)))
     = some (true, 0, true) := by decide
 -- half-way through, the waiter is blocked (`wWake` rejected) but the execution can move
